@@ -29,7 +29,7 @@ def classes(a, spec, res):
     out = []
     if a.get("max_blocked_to_one_node", 0) >= 2:
         out.append(">=2_blocked_to_one_node")
-    for k in ("cascades", "self_loop_blocks", "unblock_by_renege", "multi_server_blockers"):
+    for k in ("cascades", "self_loop_blocks", "unblock_by_renege", "multi_server_blockers", "several_unblocked_into_one_node_in_one_event"):
         if a.get(k):
             out.append(k)
     return out
@@ -145,10 +145,17 @@ def cascade_profile():
     """Few nodes, many servers, no waiting room, self-loops: long unblocking cascades released by a single departure."""
     w = {"capacity": 1.0, "self_loops": 1.0, "priorities": 0.2, "batching": 0.3, "zero_service": 0.2}
     return S.Profile(list(w), weights=w, required=("capacity", "self_loops"), numeric="grid", max_nodes=2, max_classes=2, plans=("max_time",),
-                     horizon=(8.0, 20.0), budget=700, caps=(0, 0, 0, 1), load="heavy", max_c=6, stay=0.7, resumptions=(1, 1))
+                     horizon=(8.0, 20.0), budget=1200, caps=(0, 0, 0, 1), load="heavy", max_c=16, stay=0.7, resumptions=(1, 1))
 
 
 _base_subchecks = subchecks
+
+
+def slotted_profile():
+    w = {"capacity": 1.0, "slotted": 1.0, "slot_capacitated": 0.5, "priorities": 0.3, "self_loops": 0.4, "batching": 0.2, "discipline": 0.2, "routing_objects": 0.3,
+         "zero_service": 0.2, "inf": 0.1}
+    return S.Profile(list(w), weights=w, required=("capacity", "slotted"), numeric="grid", max_nodes=3, max_classes=2, plans=("max_time",), horizon=(8.0, 20.0),
+                     budget=600, caps=(0, 0, 1), load="heavy", max_c=2, stay=0.7)
 
 
 def overfull_profile():
@@ -161,13 +168,16 @@ def overfull_profile():
 def subchecks(tier):   # noqa: F811
     return _base_subchecks(tier) + [
         system_subcheck("cascade", cascade_profile(), lambda spec: [Blocking(spec)], lambda a, spec, res: a.get("max_cascade", 0) >= 3,
-                        classes=lambda a, spec, res: ["cascade>=%d" % k for k in (3, 4, 5, 6) if a.get("max_cascade", 0) >= k], obs=True,
-                        n={"quick": 4800, "thorough": 30000}, rule="1-2 nodes, up to 6 servers, no waiting room, self-loops: long unblocking cascades; same monitor"),
+                        classes=lambda a, spec, res: ["cascade>=%d" % k for k in (3, 6, 9, 11, 13) if a.get("max_cascade", 0) >= k], obs=True,
+                        n={"quick": 4800, "thorough": 30000}, rule="1-2 nodes, up to 16 servers, no waiting room, self-loops: unblocking cascades of a dozen links released by one departure; same monitor"),
         system_subcheck("overfull", overfull_profile(), lambda spec: [Blocking(spec)],
                         lambda a, spec, res: a.get("max_overfull", 0) >= 1 and a.get("unblocks", 0) >= 1,
                         classes=lambda a, spec, res: ["overfull>=%d" % k for k in (1, 2, 3) if a.get("max_overfull", 0) >= k] + classes(a, spec, res), obs=True,
                         n={"quick": 4800, "thorough": 30000},
                         rule="jockeying renegers and re-routed pre-empted customers ignore capacities: nodes above their capacity with customers blocked towards them; same monitor"),
+        system_subcheck("slotted_blockers", slotted_profile(), lambda spec: [Blocking(spec)], nontrivial, classes=classes, obs=True,
+                        n={"quick": 3600, "thorough": 20000},
+                        rule="slotted (non-pre-emptive) nodes with small finite capacities inside blocking cycles: nodes without server objects as blockers and as destinations; same monitor"),
         SubCheck("refdes", ref_execute, strategy=ref_case(), n={"quick": 4800, "thorough": 40000}, kind="differential", is_spec=False,
                  rule=("independent reference simulator (vf/refdes.py: fixed servers, FIFO/LIFO, non-pre-emptive priorities, finite capacities with "
                        "rejection and Type I blocking, scripted routes, id-keyed service times) predicts every service and rejection record of "
